@@ -35,6 +35,8 @@ REPLAY_DIR = os.environ.get("VERIF_REPLAY_DIR", os.path.join(VERIF, "replays"))
 LOG_DIR = os.environ.get("VERIF_LOG_DIR", os.path.join(VERIF, "logs"))
 SEED_TARGET = os.path.join(VERIF, ".cache", "ktarget-seed")
 
+DEFAULT_FS = int(os.environ.get("VERIF_FS", "0") or 0)
+
 ENV = dict(os.environ)
 ENV["CARGO_NET_OFFLINE"] = "true"
 ENV.pop("RUSTUP_TOOLCHAIN", None)
@@ -59,6 +61,7 @@ class Harness:
         self.funcs = []
         self.unwindset = []
         self.unwindset_resolved = []
+        self.fs = None  # CBMC --max-field-sensitivity-array-size (None = driver default)
         self.file = None
         self.relfile = None
         self.crate = None
@@ -127,6 +130,8 @@ def discover():
                         h.expect = v
                     elif k == "unwindset":
                         h.unwindset = v.split(",")
+                    elif k == "fs":
+                        h.fs = int(v)
                 i += 1
                 while i < len(lines) and re.match(r"\s*// @", lines[i]):
                     m2 = re.match(r"\s*// @(\w+) (.*)", lines[i])
@@ -230,15 +235,26 @@ def run_cmd(cmd, cwd, log, cap, mem_gb=None, env=None):
     return rc, timed_out, time.time() - t0
 
 
-def kani_cmd(h, tdir, playback=False):
+def kani_cmd(h, tdir, playback=False, extra=()):
     # --no-overflow-checks: drops CBMC's --nan-check (a NaN produced by float arithmetic is not a Rust panic; the
     # harnesses assert finiteness themselves). Rust's own overflow / division panics are MIR assertions and stay.
     cmd = ["cargo", "kani", "-p", h.crate, "-Z", "stubbing", "-Z", "unstable-options", "--no-overflow-checks",
            "--target-dir", tdir, "--harness", h.fq, "--exact"]
     if playback:
         cmd += ["-Z", "concrete-playback", "--concrete-playback=print"]
+    cmd += list(extra)
+    cbmc_args = []
+    fs = h.fs if h.fs is not None else DEFAULT_FS
+    if fs:
+        # CBMC keeps arrays up to this many elements field-sensitive (default 64). Heap buffers (Vec, String, Box) are
+        # byte arrays to CBMC; above the limit a value written to one and read back is no longer a constant for the
+        # symbolic executor (e.g. the variant of a `State` popped from `state_stack`), so every match arm and all drop
+        # glue behind it is explored. This is a performance setting of the symbolic executor, not an abstraction.
+        cbmc_args += ["--max-field-sensitivity-array-size", str(fs)]
     if h.unwindset_resolved:
-        cmd += ["--cbmc-args", "--unwindset", ",".join(h.unwindset_resolved)]
+        cbmc_args += ["--unwindset", ",".join(h.unwindset_resolved)]
+    if cbmc_args:
+        cmd += ["--cbmc-args"] + cbmc_args
     return cmd
 
 
@@ -303,15 +319,22 @@ def parse_log(text):
     return r
 
 
+_UNWINDSET_CACHE = {}
+
+
 def resolve_unwindset(h, ovl, tdir, logdir):
     """`unwindset=escape_string_json.0:3,...`: per-loop bounds given by a substring of the (pretty) function name, the
     loop number and the bound. CBMC's loop ids are mangled names, so they are looked up in the harness's GOTO binary
     (`cbmc --show-loops`) after a codegen-only build. Returns (list of `id:n`, problem or None)."""
     import glob
+    # loop ids are mangled names of functions of the crate under test: identical for every harness of one overlay build
+    key = tuple(h.unwindset)
+    if key in _UNWINDSET_CACHE:
+        return _UNWINDSET_CACHE[key], None
     log = os.path.join(logdir, h.id + ".codegen.log")
     base = [c for c in kani_cmd(h, tdir) if True]
     # strip a previously resolved --cbmc-args tail (there is none at this point: h.unwindset_resolved is empty)
-    rc, to, _ = run_cmd(base + ["--only-codegen"], ovl, log, 1800)
+    rc, to, _ = run_cmd(kani_cmd(h, tdir, extra=["--only-codegen"]), ovl, log, 1800)
     if rc != 0:
         return [], "codegen failed (see %s)" % log
     cands = [f for f in glob.glob(os.path.join(tdir, "**", "out", "*%s.out" % h.id), recursive=True) if not f.endswith(".symtab.out")]
@@ -319,9 +342,19 @@ def resolve_unwindset(h, ovl, tdir, logdir):
         return [], "GOTO binary of the harness not found"
     gb = max(cands, key=os.path.getmtime)
     p = subprocess.run(["cbmc", "--show-loops", gb], capture_output=True, text=True, timeout=600)
-    loops = re.findall(r"^Loop (\S+):\n\s+file .*? function (.*)$", p.stdout, re.M)
+    loops3 = re.findall(r"^Loop (\S+):\n\s+file .*? line (\d+) .*?function (.*)$", p.stdout, re.M)
+    loops = [(lid, func) for lid, _, func in loops3]
     out = []
     for pat in h.unwindset:
+        # `<fn>@first:<n>`: the loop of the matching function with the smallest source line (its outermost loop when the
+        # function starts with it), independent of CBMC's loop numbering, which shifts when loops are added or removed
+        mf = re.match(r"(.+)@first:(\d+)$", pat)
+        if mf:
+            cands = [(int(line), lid) for lid, line, func in loops3 if mf.group(1) in func or mf.group(1) in lid.rsplit(".", 1)[0]]
+            if not cands:
+                return [], "unwindset: no loop of %s in the GOTO program" % mf.group(1)
+            out.append("%s:%s" % (min(cands)[1], mf.group(2)))
+            continue
         m = re.match(r"(.+)\.(\d+):(\d+)$", pat)
         if not m:
             return [], "bad unwindset entry %r" % pat
@@ -330,6 +363,8 @@ def resolve_unwindset(h, ovl, tdir, logdir):
         if not hits:
             return [], "unwindset: no loop %s.%s in the GOTO program" % (fn_pat, idx)
         out += ["%s:%s" % (lid, n) for lid in hits]
+    if all("@first:" in pat for pat in h.unwindset):
+        _UNWINDSET_CACHE[key] = out
     return out, None
 
 
@@ -539,7 +574,7 @@ def cmd_setup():
         logdir = os.path.join(LOG_DIR, "setup")
         os.makedirs(logdir, exist_ok=True)
         h = sorted(hs, key=lambda x: x.cap)[0]
-        cmd = kani_cmd(h, tdir) + ["--only-codegen"]
+        cmd = kani_cmd(h, tdir, extra=["--only-codegen"])
         rc, to, wall = run_cmd(cmd, ovl, os.path.join(logdir, "seed.log"), 1800)
         print("setup: seed build rc=%s in %.0fs" % (rc, wall))
         if rc == 0:
@@ -631,7 +666,7 @@ def cmd_check(prop, tier, only, jobs, keep):
         tdir = prepare_target(ovl)
         # warm-up: build dependencies once (serial) with the cheapest harness
         first = sorted(sel, key=lambda h: h.cap)[0]
-        rc, to, wall = run_cmd(kani_cmd(first, tdir) + ["--only-codegen"], ovl, os.path.join(logdir, "_build.log"), 1800)
+        rc, to, wall = run_cmd(kani_cmd(first, tdir, extra=["--only-codegen"]), ovl, os.path.join(logdir, "_build.log"), 1800)
         if rc != 0:
             txt = open(os.path.join(logdir, "_build.log"), errors="replace").read()
             errs = re.findall(r"^error.*(?:\n .*){0,6}", txt, re.M)[:5]
@@ -643,6 +678,15 @@ def cmd_check(prop, tier, only, jobs, keep):
             return 2
         print("[%s/%s] overlay built in %.0fs; %d harness(es), %d parallel" % (prop, tier, wall, len(sel), jobs))
         sys.stdout.flush()
+        # per-loop bounds: resolve each distinct unwindset once, serially (codegen + cbmc --show-loops), before the pool
+        seen = set()
+        for h in sel:
+            key = tuple(h.unwindset)
+            if h.unwindset and key not in seen and all("@first:" in pat for pat in h.unwindset):
+                seen.add(key)
+                resolved, problem = resolve_unwindset(h, ovl, tdir, logdir)
+                if not problem:
+                    h.unwindset_resolved = resolved
         order = sorted(sel, key=lambda h: -h.cap)
         # one target dir per worker (copies of the warmed-up one): concurrent `cargo kani` invocations would
         # otherwise serialise on cargo's build-directory lock while each compiles its own harness
